@@ -369,6 +369,8 @@ def run(ctx):
     ctx.bounded[-1]["evaluations"] = sum(len(v) for v in shapes().values()) * 4
     ctx.bounded[-1]["distinct_nontrivial"] = sum(len(v) for v in shapes().values())
     ctx.verify(cg.run_engine(), cg.VERIFY_RUN, min_obligations={"hdl21.generator:_run": 20})
+    from contracts import c_qualname
+    ctx.verify(c_qualname.engine(), c_qualname.VERIFY, min_obligations={c_qualname.KEY: 10})
     ctx.assumptions.append("generator bodies (user code) keep the cache bookkeeping and do not mutate Generator / "
                            "GeneratorCall objects (assumed contract GenBody); _unique_name / hasparams are abstracted "
                            "as functions of their argument in the proof of _run")
